@@ -280,6 +280,7 @@ class Gen:
         add(1, 'EMPTY_MAP', lambda: self._empty_map(st))
         add(1, 'ENV', lambda: self._env(st))
         add(2, 'COMB', lambda: self._comb_idiom(st))
+        add(3, 'ARITH', lambda: self._arith_idiom(st))
         if depth > 0:
             add(1, 'LAMBDA', lambda: self._lambda(st, depth))
         res = None
@@ -347,6 +348,15 @@ class Gen:
             if top[0] == 'bool' and snd[0] == 'bool':
                 op = r.choice(['AND', 'OR', 'XOR'])
                 add(3, 'AND..', lambda: ([{'prim': op}], [('bool',)] + st[2:]))
+            if (top[0], snd[0]) in EDIV_T:
+                add(4, 'EDIV', lambda: ([{'prim': 'EDIV'}], [('option', ('pair', *[(x,) for x in EDIV_T[(top[0], snd[0])]]))] + st[2:]))
+            if (top[0], snd[0]) in AND_T:
+                add(3, 'AND', lambda: ([{'prim': 'AND'}], [('nat',)] + st[2:]))
+            if top[0] == 'nat' and snd[0] == 'nat':
+                op2 = r.choice(['OR', 'XOR'])
+                add(3, 'OR..', lambda: ([{'prim': op2}], [('nat',)] + st[2:]))
+            if top[0] == 'mutez' and snd[0] == 'mutez':
+                add(4, 'SUB_MUTEZ', lambda: ([{'prim': 'SUB_MUTEZ'}], [('option', ('mutez',))] + st[2:]))
             for name, table in (('ADD', ADD_T), ('SUB', SUB_T), ('MUL', MUL_T)):
                 if (top[0], snd[0]) in table:
                     add(4, name, (lambda name=name, table=table: ([{'prim': name}], [(table[(top[0], snd[0])],)] + st[2:])))
@@ -476,6 +486,73 @@ class Gen:
             return ({'prim': 'pair', 'args': [ty['args'][0]] + t2['args']}, {'prim': 'Pair', 'args': [v['args'][0]] + v2['args']})
         return ty, v
 
+    # ---- arithmetic: operands pushed on purpose so that every operand class and edge is reached --------------
+    def _arith_idiom(self, st):
+        r = self.rng
+        P = lambda prim: {'prim': prim}
+        kind = r.choice(['EDIV', 'EDIV', 'EDIV', 'LSL', 'LSR', 'AND', 'OR', 'XOR', 'ANDI', 'SUB_MUTEZ', 'NOT', 'ADD', 'SUB', 'MUL', 'BOOL', 'CMP'])
+        self.note(kind if kind not in ('ANDI',) else 'AND')
+
+        def num(t, **kw):
+            if t == 'mutez':
+                return {'int': str(r.choice([0, 1, 2, 7, 10**6, 2**62, 2**63 - 1, r.getrandbits(40)]))}
+            return {'int': str(self.gen_int(nat=t == 'nat', **kw))}
+
+        def two(ta, va, tb, vb, op, res):
+            """operands: `a` ends up on top"""
+            return [{'prim': 'PUSH', 'args': [{'prim': tb}, vb]}, {'prim': 'PUSH', 'args': [{'prim': ta}, va]}, P(op)], [res] + st
+
+        if kind == 'EDIV':
+            ta, tb = r.choice(sorted(EDIV_T))
+            va, vb = num(ta), num(tb)
+            if r.random() < 0.25:
+                vb = {'int': '0'}
+            a, b = int(va['int']), int(vb['int'])
+            self.shape('EDIV ' + ('by zero' if b == 0 else ('negative divisor' if b < 0 else 'positive divisor')) + (', negative dividend' if a < 0 else ''))
+            self.shape(f'EDIV {ta} {tb}')
+            if b != 0 and a % b == 0:
+                self.shape('EDIV exact')
+            q, rr = EDIV_T[(ta, tb)]
+            return two(ta, va, tb, vb, 'EDIV', ('option', ('pair', (q,), (rr,))))
+        if kind in ('LSL', 'LSR'):
+            n = r.choice([0, 0, 1, 7, 8, 63, 64, 255, 256, 256, 257, 1000])
+            self.shape(f'{kind} shift={n if n in (0, 256, 257) else ("<256" if n < 256 else ">257")}')
+            return two('nat', num('nat'), 'nat', {'int': str(n)}, kind, ('nat',))
+        if kind in ('AND', 'OR', 'XOR'):
+            return two('nat', num('nat'), 'nat', num('nat'), kind, ('nat',))
+        if kind == 'ANDI':
+            if r.random() < 0.5:
+                va = num('int')
+                self.shape('AND int nat' + (' (negative int)' if int(va['int']) < 0 else ''))
+                return two('int', va, 'nat', num('nat'), 'AND', ('nat',))
+            vb = num('int')
+            self.shape('AND nat int' + (' (negative int)' if int(vb['int']) < 0 else ''))
+            return two('nat', num('nat'), 'int', vb, 'AND', ('nat',))
+        if kind == 'SUB_MUTEZ':
+            va, vb = num('mutez'), num('mutez')
+            if r.random() < 0.2:
+                vb = va
+            a, b = int(va['int']), int(vb['int'])
+            self.shape('SUB_MUTEZ ' + ('underflow' if a < b else ('to zero' if a == b else 'positive')))
+            return two('mutez', va, 'mutez', vb, 'SUB_MUTEZ', ('option', ('mutez',)))
+        if kind == 'NOT':
+            t = r.choice(['nat', 'int', 'bool'])
+            v = self.gen_value((t,))
+            return [{'prim': 'PUSH', 'args': [{'prim': t}, v]}, P('NOT')], [('bool',) if t == 'bool' else ('int',)] + st
+        if kind == 'BOOL':
+            op = r.choice(['AND', 'OR', 'XOR'])
+            return two('bool', self.gen_value(('bool',)), 'bool', self.gen_value(('bool',)), op, ('bool',))
+        if kind == 'CMP':
+            t = r.choice(COMPARABLE)
+            va = self.gen_value(t)
+            vb = va if r.random() < 0.3 else self.gen_value(t)
+            op = r.choice(['EQ', 'NEQ', 'LT', 'GT', 'LE', 'GE'])
+            code, _ = two(t[0], va, t[0], vb, 'COMPARE', ('int',))
+            return code + [P(op)], [('bool',)] + st
+        table = {'ADD': ADD_T, 'SUB': SUB_T, 'MUL': MUL_T}[kind]
+        ta, tb = r.choice(sorted(k for k in table if 'mutez' not in k or r.random() < 0.5) or sorted(table))
+        return two(ta, num(ta, small=(ta == 'mutez')), tb, num(tb, small=(tb == 'mutez')), kind, (table[(ta, tb)],))
+
     def _push_any(self, st):
         t = self.gen_type(2)
         return [self.push(t)], [t] + st
@@ -590,6 +667,9 @@ ADD_T = {('nat', 'nat'): 'nat', ('nat', 'int'): 'int', ('int', 'nat'): 'int', ('
          ('int', 'timestamp'): 'timestamp', ('mutez', 'mutez'): 'mutez'}
 SUB_T = {('nat', 'nat'): 'int', ('nat', 'int'): 'int', ('int', 'nat'): 'int', ('int', 'int'): 'int', ('timestamp', 'int'): 'timestamp',
          ('timestamp', 'timestamp'): 'int', ('mutez', 'mutez'): 'mutez'}
+EDIV_T = {('nat', 'nat'): ('nat', 'nat'), ('nat', 'int'): ('int', 'nat'), ('int', 'nat'): ('int', 'nat'), ('int', 'int'): ('int', 'nat'),
+          ('mutez', 'nat'): ('mutez', 'mutez'), ('mutez', 'mutez'): ('nat', 'mutez')}
+AND_T = {('nat', 'nat'), ('int', 'nat'), ('nat', 'int')}
 MUL_T = {('nat', 'nat'): 'nat', ('nat', 'int'): 'int', ('int', 'nat'): 'int', ('int', 'int'): 'int', ('mutez', 'nat'): 'mutez',
          ('nat', 'mutez'): 'mutez'}
 
